@@ -270,6 +270,67 @@ def load_corpus(d):
 
 
 # ------------------------------------------------------------------------------ engine
+_TREE_KEY = {}
+
+
+def tree_key(repo):
+    """Fingerprint of the Go source tree under test: HEAD + uncommitted diff + untracked Go files.
+    None when the tree is not a git checkout (then nothing is cached)."""
+    if repo in _TREE_KEY:
+        return _TREE_KEY[repo]
+    import hashlib
+    key = None
+    rc1, head = vf.sh(["git", "-C", repo, "rev-parse", "HEAD"])
+    rc2, diff = vf.sh(["git", "-C", repo, "diff", "HEAD", "--binary"])
+    rc3, other = vf.sh(["git", "-C", repo, "ls-files", "-o", "--exclude-standard"])
+    if rc1 == 0 and rc2 == 0 and rc3 == 0:
+        h = hashlib.sha1()
+        h.update(head.encode())
+        h.update(diff.encode(errors="replace"))
+        for f in sorted(other.split("\n")):
+            if f.endswith((".go", ".mod", ".sum", ".s", ".c", ".h")):
+                h.update(f.encode())
+                try:
+                    h.update(open(os.path.join(repo, f), "rb").read())
+                except OSError:
+                    pass
+        rc4, ver = vf.sh(["go", "version"])
+        h.update(ver.encode())
+        key = h.hexdigest()
+    _TREE_KEY[repo] = key
+    return key
+
+
+def go_test_binary_cached(ctx, pkg, engine_files, out_name, overlay_extra=None, use_overlay=True):
+    """ctx.go_test_binary, skipped when the binary was built from the same source tree, engine
+    files and overlay stub (go test -c relinks every time: ~5 s per binary, six binaries)."""
+    import hashlib
+    out = os.path.join(ctx.workdir, out_name)
+    tk = tree_key(ctx.repo)
+    key = None
+    if tk is not None:
+        h = hashlib.sha1(tk.encode())
+        h.update(pkg.encode())
+        h.update(b"overlay" if use_overlay else b"plain")
+        files = list(engine_files) + sorted((overlay_extra or {}).values()) + [os.path.join(vf.HARNESS, "overlay", "zz_vmstub.go.txt")]
+        for f in files:
+            h.update(f.encode())
+            h.update(open(f, "rb").read())
+        key = h.hexdigest()
+        try:
+            if os.path.exists(out) and open(out + ".key").read() == key:
+                return 0, "cached", out
+        except OSError:
+            pass
+    rc, log, path = ctx.go_test_binary(pkg, engine_files, out_name, overlay_extra=overlay_extra, use_overlay=use_overlay)
+    if rc == 0 and key is not None:
+        with open(out + ".key", "w") as f:
+            f.write(key)
+    elif os.path.exists(out + ".key"):
+        os.remove(out + ".key")
+    return rc, log, path
+
+
 def run_engine(ctx, binpath, scenarios, tag="c09chain", test="TestVerifC09ChainEngine"):
     fin = os.path.join(ctx.workdir, tag + ".in")
     fout = os.path.join(ctx.workdir, tag + ".out")
@@ -320,13 +381,27 @@ def zl(l):
     return "[" + ";".join(vf.coq_Z(x) for x in l) + "]"
 
 
-def coq_cases(scenarios, outs):
-    """One `scen_diff` per scenario; D = list of 0 (model = implementation) or 1+index of the first
-    differing arrival."""
-    txt = ["From Coq Require Import ZArith List Bool.", "From Verif Require Import Dpos.Slot Dpos.Accept.",
-           "Import ListNotations.", "Open Scope Z_scope.",
-           "Definition B i p s t g n c e := Build_block i p s t g n c e.",
-           "Definition G := B 0 (-1) (-1) 0 true 0 true true."]
+def f42_fixed(repo):
+    """Source flag of the model: reorg() puts the consensus back on the best block after a failed
+    rollforward (fixes/NOT_APPLIED_F42_reorg_restore_consensus.diff applied)."""
+    try:
+        src = open(os.path.join(repo, "chain", "reorg.go")).read()
+    except OSError:
+        return False
+    m = re.search(r"if err := reorg\.rollforward\(\); err != nil \{(.*?)\n\t\treturn err", src, re.S)
+    return bool(m and "cs.Update(reorg.bestBlock)" in m.group(1))
+
+
+COQ_HEADER = ["From Coq Require Import ZArith List Bool.", "From Verif Require Import Dpos.Slot Dpos.Accept.",
+              "Import ListNotations.", "Open Scope Z_scope.",
+              "Definition B i p s t g n c e := Build_block i p s t g n c e.",
+              "Definition G := B 0 (-1) (-1) 0 true 0 true true."]
+
+
+def coq_cases(scenarios, outs, f42=False, prefix="", header=True):
+    """One `scen_diff` per scenario; D<prefix>x<k> = list of 0 (model = implementation) or 1+index of
+    the first differing arrival.  Returns (text, number of D lists)."""
+    txt = list(COQ_HEADER) if header else []
     names = []
     for n, (sc, out) in enumerate(zip(scenarios, outs)):
         mb = model_blocks(sc, out)
@@ -337,25 +412,26 @@ def coq_cases(scenarios, outs):
             evs.append("(%s,%s)" % (coq_block(mb[o["id"]]), vf.coq_Z(o["now0"])))
             obs.append("(%d,%s,%s,%s,%s,%s,%s)" % (CLASS_CODE.get(o["r"], 97), zl(o["calls"]), zl(o["main"]), zl(o["store"]),
                                                     zl(o["orph"]), zl(o["errs"]), vf.coq_Z(o["upd"])))
-        txt.append("Definition d%d := scen_diff %d %s %d%%nat G %s [%s] [%s]." % (
-            n, sc["iv"] * 1000, cm, sc["cap"], zl(allids), ";\n ".join(evs), ";\n ".join(obs)))
-        names.append("d%d" % n)
+        txt.append("Definition d%s%d := scen_diff %d %s %d%%nat G %s %s [%s] [%s]." % (
+            prefix, n, sc["iv"] * 1000, cm, sc["cap"], "true" if f42 else "false", zl(allids), ";\n ".join(evs), ";\n ".join(obs)))
+        names.append("d%s%d" % (prefix, n))
     CH = 100
     k = 0
     for c0 in range(0, len(names), CH):
-        txt.append("Definition D%d := Eval vm_compute in [%s]." % (k, ";".join(names[c0:c0 + CH])))
-        txt.append("Print D%d." % k)
+        txt.append("Definition D%sx%d := Eval vm_compute in [%s]." % (prefix, k, ";".join(names[c0:c0 + CH])))
+        txt.append("Print D%sx%d." % (prefix, k))
         k += 1
     return "\n".join(txt), k
 
 
-def parse_diffs(out, nchunks):
+def parse_diffs(out, nchunks, prefix=""):
     flat = " ".join(out.split())
     res = []
-    for m in re.finditer(r"\bD\d+ = (\[[^\]]*\]|nil)", flat):
+    pat = r"\bD%sx\d+ = " % re.escape(prefix)
+    for m in re.finditer(pat + r"(\[[^\]]*\]|nil)", flat):
         body = m.group(1)
         res += [] if body in ("nil", "[]") else [int(x) for x in re.findall(r"-?\d+", body)]
-    if len(re.findall(r"\bD\d+ = ", flat)) != nchunks:
+    if len(re.findall(pat, flat)) != nchunks:
         return None
     return res
 
